@@ -396,6 +396,9 @@ async fn scenario(p: Prog, viol: &mut Vec<(String, String)>) -> String {
                 (1, "echoed") | (0, "closed") | (_, "connect-failed") => {}
                 (0, "silent") if in_backlog => {}
                 (_, "no-report") => POOL_LAG.with(|x| x.set(true)),
+                // delivered and handled, but the echo did not reach the peer inside its 3 s
+                // read timeout: wall clock on a loaded machine, no verdict
+                (1, "silent") => POOL_LAG.with(|x| x.set(true)),
                 (0, "silent") => vio(viol, "connection-swallowed", &ctx,
                     "the connection was neither delivered to any accept call nor closed: its descriptor is held by nobody the caller can reach".to_string()),
                 (d, v) => vio(viol, "accept-inconsistent", &ctx, format!("delivered={d} but the peer observed {v}")),
